@@ -71,9 +71,9 @@ def _palette(bb, sb):
 
 
 @st.composite
-def stacks_strategy(draw, n, sb, bb, short_bias=False):
+def stacks_strategy(draw, n, sb, bb, short_bias=False, styles=None):
     pal = _palette(bb, sb)
-    style = draw(st.integers(0, 6))
+    style = draw(st.sampled_from(styles) if styles else st.integers(0, 6))
     if style == 6 and n >= 4:
         # "ladder": deep players plus short stacks whose consecutive all-in
         # raises over a minimum raise sum to just below / exactly / just
@@ -309,6 +309,7 @@ def configs(
         max_players_cap=9,
         profiles=(0, 1, 2, 3, 4, 5),
         short_bias=False,
+        stack_styles=None,
 ):
     game_pool = list(games) + (['CUSTOM'] * max(1, len(games) // 5)
                                if custom else [])
@@ -365,7 +366,8 @@ def configs(
         blinds = draw(blinds_strategy(n, sb_amt, bb_amt))
         if not any(antes) and not any(blinds):
             blinds[1 % n] = bb_amt
-    stacks = draw(stacks_strategy(n, sb_amt, bb_amt, short_bias))
+    stacks = draw(stacks_strategy(n, sb_amt, bb_amt, short_bias,
+                                  stack_styles))
     chip_t = draw(st.sampled_from(chips))
     if chip_t in ('float', 'dec') and nboards == 3:
         # known finding G1 (rounding assert with real-valued chips when a
@@ -390,7 +392,8 @@ def configs(
         rake=rk, divmod=dm, deck_seed=draw(st.integers(0, 10 ** 6)),
         profile=draw(st.sampled_from(profiles)),
         strict=draw(st.booleans()) if strict is None else strict,
-        unknown=bool(unknown) and draw(st.booleans()),
+        unknown=(unknown if unknown == 'heavy'
+                 else bool(unknown) and draw(st.booleans())),
         rig=draw(st.sampled_from(rigs)),
     )
     return cfg
